@@ -106,4 +106,10 @@ CLAIMS = {
         note="The acme protocol client and the challenge server are outside (client is a stub); leader election is a stub flag; the hooked Services (real ReconcileIngress) is never leader, so acme histories run through ctlsim's mirror of ReconcileIngress.",
         technique="property-based testing (rapid): decision-table style oracle for the signer; stateful model (set difference of wanted storages) for the queue",
     ),
+    "C13": dict(
+        text="Generated arrival schedules exercise the real rate limiters at real instants; scheduled runs are derived with a small model of the delaying queue from bracketed When() calls and checked for minimum spacing, coalescing and bounded lateness; the real queues are then driven with the same schedules and checked one-sidedly (never early, never more runs, the last notification is served). The reload limiter defect was repaired in /repo.",
+        design_ref="DESIGN.md section 3, C13",
+        note="Schedules are sampled at a few dozen millisecond scale; arbitrary preemption inside client-go's queue is not enumerated; verdicts are jitter-proof by construction (brackets, one-sided).",
+        technique="property-based testing (rapid) over arrival schedules with a reference queue model and one-sided checks on the real queue",
+    ),
 }
